@@ -89,7 +89,7 @@ func RunPath(g *Graph, srv *drv.Server, path []*Edge, override []byte, mode stri
 			rcptErrs = append(rcptErrs, tmp.RcptErrs...)
 			authPlans = append(authPlans, tmp.AuthPlans...)
 		}
-		if k.EOF {
+		if k.EOF || k.ThenEOF {
 			eof = true
 		}
 		for _, ph := range k.Phases {
